@@ -175,10 +175,33 @@ func opRsign(ts, ns, seed, signs string) (string, string) {
 		}
 	wait:
 		for {
+			if out == nil && errc == nil {
+				closed = true
+				break wait
+			}
 			select {
 			case sendc <- msg:
 				curIdx = i
 				res[i] = "ok wait"
+				// 3a1c0bc: after its single report the stage closes errc and out and THEN keeps taking
+				// (and dropping) late shares until the context ends (drainSigns). A share accepted
+				// after out was closed was taken by that drain, not by the collecting loop: both
+				// closes happen before the drain's first receive, so this read is deterministic.
+				if out != nil {
+					select {
+					case o, ok := <-out:
+						if !ok {
+							out = nil
+						} else if o != nil {
+							note("ok done")
+						}
+					default:
+					}
+				}
+				if out == nil {
+					res[i] = "dropped"
+					curIdx = -1
+				}
 				break wait
 			case e, ok := <-errc:
 				if !ok {
